@@ -27,6 +27,7 @@ import (
 	"strings"
 	"sync"
 	"sync/atomic"
+	"time"
 
 	"github.com/polynetwork/poly/common"
 	"github.com/polynetwork/poly/core/store/ledgerstore"
@@ -252,7 +253,10 @@ func main() {
 		workers = 8
 	}
 	debug.SetMemoryLimit(int64(r.QT(2, 4)) << 30)
-	r.Require("same_net_different_history", "tombstone_in_net_write_set", "via_tx_commit", "tx_reset_discards", "delete_then_put", "redundant_overwrite", "ledger_runs")
+	r.Require("same_net_different_history", "tombstone_in_net_write_set", "via_tx_commit", "tx_reset_discards", "delete_then_put", "redundant_overwrite", "ledger_runs", "volume_blocks")
+	phaseTimes := map[string]float64{}
+	t0 := time.Now()
+	lap := func(name string) { phaseTimes[name] = time.Since(t0).Seconds(); t0 = time.Now() }
 	all := menu("blk", "tx")
 	blkOnly := menu("blk")
 
@@ -306,6 +310,7 @@ func main() {
 		r.Capped("phase A BFS cut by deadline")
 	}
 
+	lap("A")
 	// ---------------- phase B: every sequence, no dedup
 	var seqs atomic.Int64
 	sweep := func(ops []op, depth int, withTx bool, tag string) {
@@ -370,6 +375,7 @@ func main() {
 	sweep(blkOnly, dBlk, false, "block-layer")
 	sweep(all, dMix, true, "mixed")
 
+	lap("B")
 	// ---------------- phase C: state root through a real StateStore, per net write set, two different histories
 	nClasses, multi, tomb := 0, 0, 0
 	prior := []common.Uint256{{1}, {2}}
@@ -423,9 +429,16 @@ func main() {
 		return true
 	})
 
+	lap("C")
+	// ---------------- phase E: volume (see volume.go)
+	r.Note("phaseE_volume", volumePhase(workers))
+	lap("E")
+
 	// ---------------- phase D: ledger level (see ledger.go)
 	ledgerNote := ledgerPhase(r, workers)
 	r.Note("phaseD_ledger", ledgerNote)
+	lap("D")
+	r.Note("phase_wall_seconds", phaseTimes)
 
 	var ex []string
 	collEx.Range(func(k, _ any) bool { ex = append(ex, k.(string)); return len(ex) < 3 })
